@@ -383,7 +383,7 @@ def main(argv):
         vsim.Rng(seed, "c08-order").shuffle(cases)
         budget = checklib.Budget(400 if tier == "quick" else 2400)
         results = []
-        B = 64
+        B = 256
         for b0 in range(0, len(cases), B):
             if budget.over():
                 break
